@@ -47,12 +47,16 @@ class Stage:
             a0ty = (args[0].ty or '') if args else ''
             root = cfg.origin_of_operand(args[0]) if args else None
             rootty = root.t if root is not None else ''
-            if p == 'std::iter::Iterator::next' and 'std::sync::mpsc::IntoIter<adlt::dlt::DltMessage>' in a0ty:
+            if p == 'std::iter::Iterator::next' and re.search(r'std::sync::mpsc::(IntoIter|Iter|TryIter)<(\'_, )?adlt::dlt::DltMessage>', a0ty):
+                self.add(blk.i, 'RECV_IN')
+            elif re.search(r'^std::sync::mpsc::Receiver::<T>::(recv|recv_timeout|try_recv|recv_deadline)$', p) and 'Receiver<adlt::dlt::DltMessage>' in a0ty:
                 self.add(blk.i, 'RECV_IN')
             elif p == 'std::iter::Iterator::next' and 'vec_deque::IntoIter<adlt::dlt::DltMessage>' in a0ty:
                 self.add(blk.i, 'FINAL_NEXT')
             elif p.endswith('VecDeque::<T, A>::pop_front') and 'DltMessage' in a0ty:
                 self.add(blk.i, 'POP')
+            elif re.search(r'VecDeque::<T, A>::(drain|pop_back|split_off|remove|truncate|clear|swap_remove_back|swap_remove_front|retain|retain_mut)$', p) and 'DltMessage' in a0ty:
+                self.add(blk.i, 'POPX', what=p.split('::')[-1])
             elif p.endswith('VecDeque::<T, A>::push_back') and 'DltMessage' in a0ty:
                 self.add(blk.i, 'STORE')
             elif p.endswith('VecDeque::<T, A>::is_empty') and 'DltMessage' in a0ty:
@@ -96,6 +100,20 @@ class Stage:
                             o = Operand(s.rv['o'])
                             if o.place is not None and o.place.l == dest.l and o.place.p and s.place.is_local:
                                 recv_locals.add(s.place.l)
+        # `let mut msg = match inflow.recv() { Ok(m) => m, .. }`: the payload travels through further plain moves
+        changed = True
+        while changed:
+            changed = False
+            for b in body.blocks:
+                if b.cleanup:
+                    continue
+                for s in b.stmts:
+                    if s.k == 'assign' and s.rv['k'] == 'use' and s.place.is_local and not s.place.p and s.place.l not in recv_locals:
+                        from facts import Operand
+                        o = Operand(s.rv['o'])
+                        if o.place is not None and not o.place.p and o.place.l in recv_locals and 'DltMessage' in body.lty(s.place.l) and not body.lty(s.place.l).startswith('&'):
+                            recv_locals.add(s.place.l)
+                            changed = True
         self.recv_locals = recv_locals
         for bi, evs in list(self.ev.items()):
             if 'SEND' in evs or 'STORE' in evs:
